@@ -336,6 +336,9 @@ def default_config():
     return defn("default_config", "list (string * cval)", coq_list(rows))
 
 
+BOUNDS: dict = {}   # key -> bound of its guard, filled by validators() (read by the harness to draw boundary values)
+
+
 def _only_if(f, nth=-1):
     b = _body(f)
     i = b[nth]
@@ -389,8 +392,13 @@ def validators():
         c = tst.values[1]
         _expect(isinstance(c, ast.Compare) and ast.unparse(c.left) == var, f"{fname}: comparison")
         bound = const_value(c.comparators[0])
-        _expect(bound == 0 and isinstance(bound, int), f"{fname}: bound")
-        return defn(coqprefix + "_bad_cmp", "cmp", cmp_op(c))
+        _expect(isinstance(bound, int) and not isinstance(bound, bool), f"{fname}: integer bound expected")
+        _expect(len(i.body) == 1 and ast.unparse(i.body[0]).startswith("errors.append("), f"{fname}: errors.append(<message>)")
+        msg = const_value(i.body[0].value.args[0])
+        _expect(isinstance(msg, str), f"{fname}: message")
+        BOUNDS[key] = bound
+        return (defn(coqprefix + "_bad_cmp", "cmp", cmp_op(c)) + defn(coqprefix + "_bound", "Z", f"({bound})%Z")
+                + defn(coqprefix + "_msg", "string", coq_string(msg)))
 
     out += numeric("_validate_max_retries", "max_retries", "int", "max_retries")
     out += numeric("_validate_timeout", "timeout", "(int, float)", "timeout")
@@ -398,6 +406,8 @@ def validators():
     i = _only_if(s)
     _unparse_is(i.test, "not isinstance(app_name, str) or not app_name.strip()", "_validate_string_values test")
     _unparse_is(_body(s)[0].body[0], "app_name = config['app_name']", "_validate_string_values lookup")
+    _expect(len(i.body) == 1 and ast.unparse(i.body[0]).startswith("errors.append("), "_validate_string_values: errors.append(<message>)")
+    out += defn("app_name_msg", "string", coq_string(const_value(i.body[0].value.args[0])))
     return out
 
 
